@@ -576,6 +576,21 @@ def _check_nnls_result(acc, cell, tag, rep, lad, f, r):
     nu = "lt" in lad  # non-uniform / masked grid: own cell (name carries @<grid kind>), own tolerances
     area_tol = AREA_TOL_NU if nu else AREA_TOL
     lam = float(r.lambda_value)
+    if acc.evals % 2 == 0:
+        # accessor history: the clauses below are evaluated on what the result presents AFTER its other documented accessors
+        # (peaks with a threshold, tabular views) have been used - reading a result is an operation of the history too
+        g_first = np.array(r.get_drt_data()[1], dtype=float)
+        for name, call in (("get_peaks(0.3)", lambda: r.get_peaks(threshold=0.3)), ("to_peaks_dataframe(0.2)", lambda: r.to_peaks_dataframe(threshold=0.2)),
+                           ("get_peaks(0.9)", lambda: r.get_peaks(threshold=0.9)), ("to_statistics_dataframe", lambda: r.to_statistics_dataframe())):
+            try:
+                call()
+                acc.stat(cell + "/accessor-before-clauses")
+            except Exception:
+                acc.stat(cell + "/accessor-raised")
+        g_again = np.asarray(r.get_drt_data()[1], dtype=float)
+        if g_again.shape != g_first.shape or not np.array_equal(g_again, g_first):
+            acc.bad(vkey + "result-changed-by-accessor", f"gamma read before and after get_peaks(threshold)/to_peaks_dataframe differs: max gamma {float(np.max(g_first))!r} -> "
+                    f"{float(np.max(g_again))!r}", rep)
     tau, g = r.get_drt_data()
     tau = np.asarray(tau, dtype=float)
     g = np.asarray(g, dtype=float)
